@@ -350,6 +350,31 @@ case("list(map(bound method, xs)) reads like the comprehension", """
         return out
 """, 0)
 
+case("pair assignment of pure reads split; bound-method alias then folded", """
+    class K:
+        def __init__(self):
+            self.groups = {"a": {1, 2}, "b": {3}}
+        def ids(self, *names):
+            ids = set()
+            groups, add = self.groups, ids.update
+            x, y = 1, 2
+            x, y = y, x
+            for n in names:
+                try:
+                    add(groups[n])
+                except KeyError:
+                    raise LookupError(n) from None
+            return sorted(ids), x, y
+    def main():
+        k = K()
+        out = [k.ids("a", "b"), k.ids()]
+        try:
+            k.ids("a", "zz")
+        except LookupError as e:
+            out.append(e.args)
+        return out
+""", 0)
+
 
 def run(tree):
     buf = io.StringIO()
